@@ -556,21 +556,19 @@ func checkC12Fields(r *Report, p *Prog) {
 		fc := a.Ctx(fn)
 		r.Fn(p.FnName(fn))
 		for _, e := range es {
-			st := oneField(r, rule, fn, fc, modPath, e.typ, e.field)
-			if st == nil {
-				continue
+			for _, st := range fieldPerBuilder(r, rule, fn, fc, modPath, e.typ, e.field) {
+				ap := canonFirstSet(a.Ctx(st.Parent()), st.Val)
+				ok := strings.HasSuffix(ap, e.want)
+				if strings.HasPrefix(e.want, "param:") {
+					prm, isP := st.Val.(*ssa.Parameter)
+					ok = isP && isStringType(prm.Type())
+				}
+				if e.want == "TimeNow()" {
+					src := valueSources(p, fn, st.Val, 0, map[string]bool{})
+					ok = len(src) == 1 && src[0] == "call through saml.TimeNow"
+				}
+				r.Check(ok, rule, fmt.Sprintf("%s: %s.%s", p.FnName(fn), e.typ, e.field), p.InstrPos(st), "<- "+ap, fmt.Sprintf("%s comes from %s, expected %s", e.field, ap, e.why))
 			}
-			ap := canonFirstSet(a.Ctx(st.Parent()), st.Val)
-			ok := strings.HasSuffix(ap, e.want)
-			if strings.HasPrefix(e.want, "param:") {
-				prm, isP := st.Val.(*ssa.Parameter)
-				ok = isP && isStringType(prm.Type())
-			}
-			if e.want == "TimeNow()" {
-				src := valueSources(p, fn, st.Val, 0, map[string]bool{})
-				ok = len(src) == 1 && src[0] == "call through saml.TimeNow"
-			}
-			r.Check(ok, rule, fmt.Sprintf("%s: %s.%s", p.FnName(fn), e.typ, e.field), p.InstrPos(st), "<- "+ap, fmt.Sprintf("%s comes from %s, expected %s", e.field, ap, e.why))
 		}
 	}
 	issuer := "firstSet(ServiceProvider.EntityID,ServiceProvider.MetadataURL.String())"
@@ -588,7 +586,10 @@ func checkC12Fields(r *Report, p *Prog) {
 		fn := p.MustFunc("saml", "ServiceProvider", "MakeAuthenticationRequest")
 		a := NewAnalysis(p)
 		fc := a.Ctx(fn)
-		if st := oneField(r, rule, fn, fc, modPath, "NameIDPolicy", "Format"); st != nil {
+		for _, st := range fieldPerBuilder(r, rule, fn, fc, modPath, "NameIDPolicy", "Format") {
+			if st.Parent() != fn {
+				fc = a.Ctx(st.Parent())
+			}
 			ok := false
 			why := "the requested name-ID format is not the configured one"
 			if al, isA := st.Val.(*ssa.Alloc); isA {
